@@ -474,4 +474,31 @@ pub mod verif_hooks {
         let p = finder.find(signal, warmup_length, max_p);
         (p.order, p.ps, p.code_bits, finder.ps, finder.min_ps)
     }
+
+    /// Overwrites this thread's Rice parameter finder scratch with arbitrary contents.
+    pub fn poison_scratch(seed: u64) {
+        let mut s = seed | 1;
+        let mut next = move || {
+            s ^= s << 13;
+            s ^= s >> 7;
+            s ^= s << 17;
+            s
+        };
+        PRC_FINDER.with(|c| {
+            let mut f = c.borrow_mut();
+            let n = (next() % 6000) as usize;
+            f.errors = (0..n).map(|_| next() as u32).collect();
+            let nt = (next() % 300) as usize;
+            f.tables = (0..nt)
+                .map(|_| {
+                    let e: Vec<u32> = (0..8).map(|_| (next() % (1 << 20)) as u32).collect();
+                    PrcBitTable::from_errors(&e, 0)
+                })
+                .collect();
+            let np = (next() % 300) as usize;
+            f.ps = (0..np).map(|_| (next() % 40) as usize).collect();
+            let nm = (next() % 300) as usize;
+            f.min_ps = (0..nm).map(|_| (next() % 40) as usize).collect();
+        });
+    }
 }
